@@ -298,6 +298,9 @@ def to_ip_port(hosts):
                 "be supported."
             )
         ip = net.resolve(host_or_ip)
+        if ip is None:
+            # the name resolves only to loopback addresses (e.g. "localhost"), i.e. it denotes this machine
+            ip = "127.0.0.1"
         ip_port_pairs.append((ip, port))
     return ip_port_pairs
 
